@@ -35,13 +35,18 @@ LOCK = threading.Lock()
 
 
 def cfg(modes, kinds="KindsFull", reqs=2, ops=2, srv=2, pip=2, other=2, same=1, maxreq=1, targets='{"srv","q"}',
-        atomic="fine", lps=False, props=True, view=True):
+        atomic="fine", lps=False, props=True, view=True, srvkinds='{"rules","opts","both"}', ips='{"n","b"}', mc=False):
+    """cfg text for HotUpdate_MC (mc=True: exhaustive checking, no `out` variable) or HotUpdate_Gen (behaviour generation)"""
     rs = ",".join('"r%d"' % i for i in range(1, reqs + 1))
-    t = ("SPECIFICATION GSpec\nCONSTANTS\n  Reqs = {%s}\n  Routed <- RoutedDef\n  Others = {\"q\"}\n  Kinds <- %s\n" % (rs, kinds))
+    t = ("SPECIFICATION %s\nCONSTANTS\n  Reqs = {%s}\n  Routed <- RoutedDef\n  Others = {\"q\"}\n  Kinds <- %s\n" % (
+        "MCSpec" if mc else "GSpec", rs, kinds))
     for k in ("InhRl", "ClsRl", "InhPx", "ClsPx"):
         t += '  %s = "%s"\n' % (k, modes[k])
     t += ("  MaxOps = %d\n  MaxSrv = %d\n  MaxPip = %d\n  MaxOther = %d\n  MaxSame = %d\n  MaxReq = %d\n  LoadPerStep = %s\n"
-          "  Targets = %s\n  Atomic = \"%s\"\n" % (ops, srv, pip, other, same, maxreq, "TRUE" if lps else "FALSE", targets, atomic))
+          "  Targets = %s\n  Blocking = {\"px\"}\n  SrvKinds = %s\n  IPs = %s\n" % (
+              ops, srv, pip, other, same, maxreq, "TRUE" if lps else "FALSE", targets, srvkinds, ips))
+    if not mc:
+        t += '  Atomic = "%s"\n' % atomic
     if view:
         t += "VIEW view\n"
     if props:
@@ -52,7 +57,8 @@ def cfg(modes, kinds="KindsFull", reqs=2, ops=2, srv=2, pip=2, other=2, same=1, 
 TRACE_CFG = ("SPECIFICATION TSpec\nCONSTANTS\n  Reqs = {\"w0\",\"w1\",\"w2\",\"w3\",\"w4\",\"w5\",\"w6\",\"w7\"}\n  Routed <- RoutedDef\n"
              "  Others = {\"q\"}\n  Kinds <- KindsFull\n  InhRl = \"share\"\n  ClsRl = \"none\"\n  InhPx = \"fresh\"\n  ClsPx = \"stop\"\n"
              "  MaxOps = 100000000\n  MaxSrv = 100000000\n  MaxPip = 100000000\n  MaxOther = 100000000\n  MaxSame = 100000000\n"
-             "  MaxReq = 100000000\n  LoadPerStep = FALSE\n  Targets = {\"srv\",\"q\"}\n"
+             "  MaxReq = 100000000\n  LoadPerStep = FALSE\n  Targets = {\"srv\",\"q\"}\n  Blocking = {\"px\"}\n"
+             "  SrvKinds = {\"rules\",\"opts\",\"both\"}\n  IPs = {\"n\",\"b\"}\n"
              "CONSTRAINT HWM\nPOSTCONDITION Accepted\n"
              "INVARIANTS Consistent NoFailure Available Visibility Isolation Settled TV_NoFailure TV_Consistent TV_NoOp TV_Visibility\n")
 
@@ -75,15 +81,16 @@ def run(ctx):
     if ctx.phase("probe"):
         modes = _probe(ctx)
     ctx.notes.append({"observed_modes": modes})
-    if ctx.phase("mc"):
-        _mc(ctx, modes)
     jobs = []
+    if ctx.phase("mc"):
+        jobs.append(lambda: _mc(ctx, modes))      # model checking runs next to the harness jobs: it only needs the observed modes
     if ctx.phase("mbt"):
         jobs += [lambda: _mbt_http(ctx, modes), lambda: _mbt_tc(ctx), lambda: _mbt_filter(ctx, modes, "rl"), lambda: _mbt_filter(ctx, modes, "px")]
     if ctx.phase("kinds"):
         jobs.append(lambda: _mbt_kinds(ctx))
     if ctx.phase("tv"):
-        jobs.append(lambda: _tv(ctx))
+        for v in TV_VARIANTS:
+            jobs.append(lambda v=v: _tv_one(ctx, *v))
     _parallel(ctx, jobs)
 
 
@@ -93,7 +100,7 @@ def _parallel(ctx, jobs):
     if not jobs:
         return
     ctx._prepare_build()
-    with concurrent.futures.ThreadPoolExecutor(max_workers=3) as ex:
+    with concurrent.futures.ThreadPoolExecutor(max_workers=4) as ex:
         futs = [ex.submit(j) for j in jobs]
         err = None
         for f in futs:
@@ -124,25 +131,31 @@ def _probe(ctx):
 
 # ------------------------------------------------------------------------------------------ mc
 def _mc(ctx, modes):
+    M = "HotUpdate_MC"
     if ctx.quick:
-        r = ctx.tlc_mc("HotUpdate_Gen", cfg(CONTRACT_MODES, ops=2, maxreq=1), label="contract, 2 requests x 2 updater ops x 1 request each")
+        # two slices of the product (the thorough tier checks the product itself): everything about the server
+        # (rules / options / both, both client addresses) without pipeline operations, and every pipeline
+        # operation with one kind of server update and one client address
+        r = ctx.tlc_mc(M, cfg(CONTRACT_MODES, ops=2, maxreq=1, pip=0, other=0, same=0, mc=True),
+                       label="contract, server slice: 2 requests x 2 reloads (rules/opts/both) x 2 client addresses")
+        r2 = ctx.tlc_mc(M, cfg(CONTRACT_MODES, ops=2, maxreq=1, srvkinds='{"both"}', ips='{"n"}', mc=True),
+                        label="contract, pipeline slice: 2 requests x 2 updater ops (reload, update, no-op, create, delete)")
     else:
-        r = ctx.tlc_mc("HotUpdate_Gen", cfg(CONTRACT_MODES, ops=3, maxreq=1), label="contract, 2 requests x 3 updater ops", timeout=1500)
-        r2 = ctx.tlc_mc("HotUpdate_Gen", cfg(CONTRACT_MODES, ops=2, maxreq=2, same=0), label="contract, 2 requests x 2 updater ops x 2 requests each",
-                        timeout=1500)
-        ctx.log("contract model checked (2 requests each): %d distinct states" % r2.distinct)
-    ctx.log("contract model checked: %d distinct states, depth %d" % (r.distinct, r.depth))
-    # the invariants are not vacuous: two deliberately wrong implementation knobs must break them
-    for label, c, want in (("knob: every step re-reads m.inst", cfg(CONTRACT_MODES, ops=1, maxreq=1, lps=True), "Consistent"),
+        r = ctx.tlc_mc(M, cfg(CONTRACT_MODES, ops=2, maxreq=1, mc=True), label="contract, 2 requests x 2 updater ops, all kinds of operations", timeout=1500)
+        r2 = ctx.tlc_mc(M, cfg(CONTRACT_MODES, ops=3, maxreq=1, srvkinds='{"opts","both"}', mc=True), label="contract, 2 requests x 3 updater ops", timeout=2400)
+    ctx.log("contract model checked: %d + %d distinct states, depth %d / %d" % (r.distinct, r2.distinct, r.depth, r2.depth))
+    # the invariants are not vacuous: deliberately wrong implementation knobs must break them
+    for label, c, want in (("knob: every step re-reads m.inst", cfg(CONTRACT_MODES, ops=1, maxreq=1, lps=True, mc=True), "Consistent"),
                            ("knob: Inherit moves the cell away (RateLimiter.reload at the pin)",
-                            cfg(dict(CONTRACT_MODES, InhRl="move"), ops=1, maxreq=1), "NoFailure"),
-                           ("knob: Close kills a shared cell", cfg(dict(CONTRACT_MODES, ClsRl="kill"), ops=1, maxreq=1), "Settled")):
-        k = ctx.tlc_mc("HotUpdate_Gen", c, expect_ok=False, count=False, label=label, timeout=300)
-        if k.ok or k.violated not in (want, "NoFailure", "Isolation"):
+                            cfg(dict(CONTRACT_MODES, InhRl="move"), ops=1, maxreq=1, mc=True), "NoFailure"),
+                           ("knob: Close kills the state an in-flight call needs", cfg(dict(CONTRACT_MODES, ClsPx="kill"), ops=1, maxreq=1, mc=True), "NoFailure")):
+        k = ctx.tlc_mc(M, c, expect_ok=False, count=False, label=label, timeout=300)
+        if k.ok or k.violated != want:
             ctx.inconclusive("HotUpdate: %s should violate %s but TLC says ok=%s violated=%s" % (label, want, k.ok, k.violated))
     # the implementation-shaped layer with the modes observed on the real code
     if modes != CONTRACT_MODES:
-        k = ctx.tlc_mc("HotUpdate_Gen", cfg(modes, ops=2, maxreq=1), expect_ok=False, count=False, label="observed modes %s" % jdump(modes), timeout=600)
+        k = ctx.tlc_mc(M, cfg(modes, ops=2, maxreq=1, srvkinds='{"both"}', ips='{"n"}', mc=True), expect_ok=False, count=False,
+                       label="observed modes %s" % jdump(modes), timeout=600)
         if k.ok:
             ctx.log("observed modes %s satisfy the contract in the model" % jdump(modes))
         elif k.violated:
@@ -234,15 +247,16 @@ def _judge1(ctx, where, behs, recs, out, filt=None):
             # the request was inside the very pipeline that was deleted: C11 speaks about updates and about *other* objects
             ctx.notes.append({"not_a_verdict": "request inside a deleted pipeline failed", "sig": sig})
             continue
-        ctx.violation(sig, "[%s] a request failed because of an update: %s panicked in %s (%s) - schedule: %s" % (
-            where, sig["filter"], f["site"], f["panic"][:120], _short(beh)), {"harness": where, "behaviour": beh, "panic": f["panic"]})
+        ctx.violation(sig, "[%s] a request failed because of an update: filter %s, %s (%s) - schedule: %s" % (
+            where, sig["filter"], ("panic in " + f["site"]) if not f["site"].startswith("status") else "no panic", f["panic"][:120], _short(beh)),
+            {"harness": where, "behaviour": beh, "panic": f["panic"]})
     for m in [x for x in recs if x.get("k") == "mismatch"]:
         what = m["what"]
         if what.startswith("panic:") and any(x.get("k") == "fail" and x.get("b") == m.get("b") for x in recs):
             continue   # already reported through its fail record
         if what.split(":")[0] in ("panic", "status") and _sched_class(m["behaviour"]) == "after-delete":
             continue
-        if what.startswith("harness:") or what.startswith("model (implementation-shaped)") or "stuck" in what:
+        if what.startswith("harness:") or "stuck" in what:
             ctx.inconclusive("C11 %s replay: %s\n%s" % (where, what, _short(m["behaviour"])))
         clause = {"panic": "NoFailure", "status": "NoFailure", "mixed": "Consistent", "noop": "NoOp", "isolation": "Isolation",
                   "visibility": "Visibility", "stored": "Visibility", "available": "Available"}.get(what.split(":")[0], "Consistent/Visibility")
@@ -370,10 +384,13 @@ def _races(out):
     return hot, other
 
 
-def _tv(ctx):
-    # variants: the bare mux with pipelines that differ in everything / whose RateLimiter rule never changes
-    # (the limiter is inherited); the real HTTPServer object (runtime event loop, listener, requests over TCP)
-    for variant, rl_same, real in (("all-differ", 0, 0), ("rl-rule-unchanged", 1, 0), ("real-server", 0, 1)):
+TV_VARIANTS = (("all-differ", 0, 0), ("rl-rule-unchanged", 1, 0), ("real-server", 0, 1))
+
+
+def _tv_one(ctx, variant, rl_same, real):
+    """variants: the bare mux with pipelines that differ in everything / whose RateLimiter rule never changes
+    (the limiter is inherited); the real HTTPServer object (runtime event loop, listener, requests over TCP)"""
+    if True:
         if ctx.quick:
             runs, workers, per, upd = {"all-differ": (5, 4, 100000, 14), "rl-rule-unchanged": (3, 4, 100000, 10), "real-server": (2, 4, 100000, 12)}[variant]
         else:
@@ -386,7 +403,7 @@ def _tv(ctx):
         if unrelated:
             ctx.notes.append({"races_not_between_update_and_request": sorted(set("%s / %s" % u for u in unrelated))[:10]})
         for fr in set(races):
-            ctx.violation({"kind": "race", "site": list(fr)[0], "site2": list(fr)[-1]},
+            _viol(ctx, {"kind": "race", "site": list(fr)[0], "site2": list(fr)[-1]},
                           "data race between a request and a hot update reported by the Go race detector: %s / %s" % (fr[0], fr[-1]),
                           out[out.find("WARNING: DATA RACE"):][:6000])
         ev = ctx.read_ndjson(tp)
@@ -426,7 +443,7 @@ def _tv(ctx):
             sig = {"kind": "trace", "clause": clause, "ev": lastev.get("ev"), "variant": variant}
             if lastev.get("panic"):
                 sig.update({"site": lastev.get("site"), "sched": "concurrent-update"})
-            new = ctx.violation(sig, "recorded stress history of the real mux/TrafficController is not a behaviour of HotUpdate: event seq=%s %s%s" % (
+            new = _viol(ctx, sig, "recorded stress history of the real mux/TrafficController is not a behaviour of HotUpdate: event seq=%s %s%s" % (
                 lastev.get("seq"), jdump({k: v for k, v in lastev.items() if k != "w"}), ", invariant %s" % tr.inv if tr.inv else
                 " has no linearisation (a tuple no installed generation explains)"), seg[-60:])
             if new or lastev.get("ev") != "r.ret" or lastev.get("seq") in skipped or len(skipped) >= (3 if ctx.quick else 12):
@@ -437,6 +454,11 @@ def _tv(ctx):
             if lastev.get("panic"):
                 skipped |= {e["seq"] for e in ev if e["ev"] == "r.ret" and e.get("panic") and e.get("site") == lastev.get("site")}
             ev = _annotate(tp, ann, skipped)
+
+
+def _viol(ctx, *a):
+    with LOCK:
+        return ctx.violation(*a)
 
 
 def _culprit(seg, clause):
